@@ -26,10 +26,10 @@ def universes(tier, seed):
         out.append((f"MAA3[{seed % 8192}/8192]+switch", [("u", ("idx", 3, i), ("k", "bistable")) for i in U.shard(U.catalogue("maa"), seed, 8192)]))
     else:
         out.append(("KxK", kk))
-        out.append(("F3c", [("idx", 3, i) for i in U.F3_indices(True)]))
+        out.append((f"F3c[{seed % 4}/4]", [("idx", 3, i) for i in U.shard(U.F3_indices(True), seed, 4)]))
         out.append(("MULTI3", [("idx", 3, i) for i in U.catalogue("multi")]))
-        out.append((f"MAA3[{seed % 16}/16]", [("idx", 3, i) for i in U.shard(U.catalogue("maa"), seed, 16)]))
-        out.append((f"MAA3[{seed % 128}/128]+switch", [("u", ("idx", 3, i), ("k", "bistable")) for i in U.shard(U.catalogue("maa"), seed, 128)]))
+        out.append((f"MAA3[{seed % 128}/128]", [("idx", 3, i) for i in U.shard(U.catalogue("maa"), seed, 128)]))
+        out.append((f"MAA3[{seed % 1024}/1024]+switch", [("u", ("idx", 3, i), ("k", "bistable")) for i in U.shard(U.catalogue("maa"), seed, 1024)]))
     return out
 
 
@@ -42,7 +42,7 @@ def plan(tier, seed):
             if tier == "quick":
                 hist = (2 if sz <= 3 else 1 if sz <= 5 else 0) if name == "K" else (1 if sz >= 2 else 0)
             else:
-                hist = 2 if sz <= 7 else 1
+                hist = 2 if sz <= 4 else (1 if sz <= 9 else 0)
             units.append((name, [spec], hist))
         if name not in ("K", "U2"):
             for ch in U.chunks(specs, 1 if ("KxK" in name or "switch" in name) else 6):
